@@ -702,6 +702,11 @@ func c11CopyPart(root any, copier func(any) any) (res c11CopyResult) {
 	}
 	res.shared = c11SharedOf(root, b)
 	res.indep, res.culprit = "1", "-"
+	if res.equal == "0" {
+		// name the first field whose rendering differs; the mutation phases assume equal shapes
+		res.indep, res.culprit = "-", "e:"+c11Culprit(c11RenderOf(root, true), sB)
+		return
+	}
 	// phase a: mutating the original must not show through the copy
 	detached := c11MutateAll(root, "a")
 	if after := c11RenderString(b); after != sB {
